@@ -10,7 +10,9 @@ RULE = (
     "t+ (T-HOO: sqrt(2 ln n / T); HCT/VHCT: t+ of a round since the later of the cell's last pull and the last power of two), rel "
     "1e-9; (b) B rule on every non-root cell, exact: leaf B == U, internal B == min(U, max children B); (c) path rule for every "
     "pull: each step goes to a child of maximal B among its siblings, T-HOO stops at a leaf, HCT/VHCT at the first cell that is a "
-    "leaf or has fewer pulls than tau (reference tau, ceil arguments within 1e-9 accept both sides). non-trivial = >= 10 rounds, "
+    "leaf or has fewer pulls than tau (reference tau, ceil arguments within 1e-9 accept both sides); (d) the U-value of a cell that was not "
+    "pulled does not move in a round that is not a power of two. Subcheck 'long': 8 runs of 16500 (thorough 33000) rounds with the "
+    "all-cells rules evaluated around powers of two. non-trivial = >= 10 rounds, "
     ">= 2 descent steps whose siblings had distinct finite B-values, and (HCT/VHCT) >= 1 refresh round; distinct = SHA-1 of the case."
 )
 ASSUMPTIONS = [
@@ -24,10 +26,26 @@ def check_case(case):
     return hoofam.run(case, "C05")
 
 
-LAWS = ["peak", "peakpos", "bump", "peak", "bump", "noise", "ties", "negative", "large", "const"]
+LAWS = ["peak", "peakpos", "bump", "peak", "bump", "noise", "ties", "negative", "large", "const", "twolevel"]
+
+
+def long_cases(tier):
+    """Runs past 2^14 rounds (behaviour that only changes at large round counts: a tolerance in the power-of-two
+    test, a table that runs out); the all-cells rules are evaluated around powers of two and every 250th round."""
+    out = []
+    T = 16500 if tier == "quick" else 33000
+    for name, extra in (("HCT", {}), ("VHCT", {"bound": 1.0})):
+        for ps, dom in (({"cls": "BinaryPartition"}, [[0.0, 1.0]]), ({"cls": "KaryPartition", "K": 3}, [[-1.0, 2.0]]),
+                        ({"cls": "DimensionBinaryPartition"}, [[0.0, 1.0], [0.0, 2.0]]), ({"cls": "RandomBinaryPartition"}, [[0.0, 1.0]])):
+            p = {"nu": 1.0, "rho": 0.5, "c": 0.3, "delta": 0.01}
+            p.update(extra)
+            out.append({"algo": {"name": name, "params": p, "n": T}, "partition": ps, "domain": dom, "rng": {"mode": "seed", "seed": 5},
+                        "T": T, "reward": {"law": "peak", "seed": 7, "params": {"star": [0.3, 0.6], "sigma": 0.3}}, "sparse": True})
+    return out
 
 
 def run_shard(ctx):
+    ctx.enumerate("long", long_cases(ctx.tier), check_case)
     quick = ctx.tier == "quick"
     ctx.drive("index", gen.run_case(names=["T_HOO", "HCT", "VHCT"], laws=LAWS, hct_caps_inactive=True,
                                     T_max=300 if quick else 1000, n_range=(100, 300) if quick else (100, 1000),
